@@ -10,6 +10,7 @@ import (
 	"errors"
 	"fmt"
 	"os"
+	stdh "net/http"
 	"runtime/debug"
 	"sort"
 	"strings"
@@ -91,10 +92,17 @@ func c17Parse(idl string) (*thrift.TypeDescriptor, *thrift.TypeDescriptor, error
 
 // check 1703: j2t.HTTPConv.Do = message header ++ BinaryConv output ++ footer, with HTTP mapping forced on
 func c17Envelope(fn *thrift.FunctionDescriptor, pops []hPop, bodyKind int, jbody []byte, uriPath string, bits int, plain []byte, plainEc int) {
-	for _, enable := range []bool{true, false} {
+	// the request method must not matter: HTTPConv converts the body the request carries (GET / HEAD with a JSON body included)
+	for vi, enable := range []bool{true, false, true, true} {
 		req, err := buildRequest(pops, bodyKind, jbody, uriPath)
 		if err != nil {
 			return
+		}
+		if vi >= 2 {
+			if bodyKind != 2 {
+				break
+			}
+			req.Request.Method = []string{"GET", "HEAD"}[vi-2]
 		}
 		o := c17Opts(bits)
 		o.EnableHttpMapping = enable
@@ -119,12 +127,15 @@ func genC17(r *rng, n int) {
 	// main.go seeds the stream with seed*G and the stream advances by G: streams of consecutive seeds are shifts of each other.
 	// Re-seed from the first output so that different seeds give unrelated cases.
 	r = &rng{s: r.next()}
+	// api.no_body_struct over a struct with three mapped fields, every subset of them populated (an earlier field with a value, a
+	// later one without: the per-field scope of ok / val in apiNoBodyStruct.Request)
+	c17Request(r.fork(), 2)
 	nReq := n * 7 / 10
 	for out.count < nReq {
-		c17Request(r.fork(), false)
+		c17Request(r.fork(), 0)
 	}
 	// one struct with more http-mapped root fields than the native field cache holds
-	c17Request(r.fork(), true)
+	c17Request(r.fork(), 1)
 	for out.count < n {
 		c17Response(r.fork())
 	}
@@ -132,11 +143,14 @@ func genC17(r *rng, n int) {
 
 // ---- request side ------------------------------------------------------------------------------------
 
-func c17Request(r *rng, big bool) {
+func c17Request(r *rng, special int) {
+	big := special == 1
 	g := &hgen{r: r, annPct: 65}
 	var root *hTy
 	if big {
 		root = c17BigStruct(g)
+	} else if special == 2 {
+		root = c17NbsStruct(g)
 	} else {
 		root = g.annStruct(0, 2+r.intn(5))
 	}
@@ -151,6 +165,9 @@ func c17Request(r *rng, big bool) {
 	nreq := 10
 	if big {
 		nreq = 2
+	}
+	if special == 2 {
+		nreq = 16
 	}
 	for i := 0; i < nreq; i++ {
 		bits := r.intn(64)
@@ -173,6 +190,16 @@ func c17Request(r *rng, big bool) {
 					}
 				}
 				mask := r.intn(64)
+				if special == 2 {
+					// nested fields n1 n2 n3 listen to query / header / path: request i populates subset i of them (all three sources at once)
+					mask = 0
+					if len(f.Anns) == 1 && f.Anns[0].Kind != hkNoBodyStruct {
+						bit := map[string]uint{"n1": 0, "n2": 1, "n3": 2}[f.Name]
+						if i>>bit&1 == 1 {
+							pops = append(pops, hPop{Kind: f.Anns[0].Kind, Key: f.Anns[0].Key, Val: g.scalarText(f.T, true)})
+						}
+					}
+				}
 				for bi, kind := range hkKeyed {
 					if mask&(1<<bi) == 0 {
 						continue
@@ -259,6 +286,7 @@ func c17Request(r *rng, big bool) {
 			fields = append(fields, view...)
 			fields = append(fields, fx(jbody), fi(ec), fx(outb))
 			out.emit(1701, fields...)
+			out.emit(1704, fields...) // the same case judged by the transcription of the code (HttpMapCoded.v)
 			if impl == 0 && bodyKind != 1 && !big && i%4 == 0 {
 				c17Envelope(c17LastFn, pops, bodyKind, jbody, uriPath, bits, outb, ec)
 			}
@@ -404,5 +432,44 @@ func c17Response(r *rng) {
 		fields = append(fields, resp.calls...)
 		fields = append(fields, fx(outb))
 		out.emit(1702, fields...)
+		// 1705: what the setters left in the http.Response (status, Set-Cookie lines, headers, raw body)
+		fin := []string{fi(bits)}
+		fin = append(fin, descF...)
+		fin = append(fin, fx(in), fi(ec), fi(resp.Response.StatusCode))
+		cks := (&stdh.Response{Header: resp.Response.Header}).Cookies()
+		fin = append(fin, fi(len(cks)))
+		for _, c := range cks {
+			fin = append(fin, fs(c.Name), fs(c.Value))
+		}
+		var hk []string
+		for _, k := range g.keyUniverse() {
+			if v := resp.Response.Header.Get(k); v != "" {
+				hk = append(hk, fs(k), fs(v))
+			}
+		}
+		fin = append(fin, fi(len(hk)/2))
+		fin = append(fin, hk...)
+		fin = append(fin, fb(resp.Response.Body != nil))
+		out.emit(1705, fin...)
 	}
+}
+
+// root: one struct-typed field taken by api.no_body_struct from a struct with three mapped scalar fields + one plain field
+func c17NbsStruct(g *hgen) *hTy {
+	g.nname++
+	inner := &hTy{K: thrift.STRUCT, Name: fmt.Sprintf("N%d", g.nname)}
+	g.structs = append(g.structs, inner)
+	kinds := []int{hkQuery, hkHeader, hkPath}
+	tys := []*hTy{{K: thrift.STRING}, {K: thrift.I32}, {K: []thrift.Type{thrift.STRING, thrift.I64, thrift.BOOL}[g.r.intn(3)]}}
+	for i := 0; i < 3; i++ {
+		name := fmt.Sprintf("n%d", i+1)
+		inner.Fields = append(inner.Fields, &hFld{ID: int16(i + 1), Name: name, Req: g.r.intn(3), T: tys[i], Anns: []hAnn{{Kind: kinds[i], Key: "k" + name}}})
+	}
+	inner.Fields = append(inner.Fields, &hFld{ID: 9, Name: "n9", Req: 2, T: &hTy{K: thrift.I32}})
+	g.nname++
+	root := &hTy{K: thrift.STRUCT, Name: fmt.Sprintf("S%d", g.nname)}
+	g.structs = append(g.structs, root)
+	root.Fields = append(root.Fields, &hFld{ID: 1, Name: "nb", Req: g.r.intn(3), T: inner, Anns: []hAnn{{Kind: hkNoBodyStruct, Key: "nb"}}})
+	root.Fields = append(root.Fields, &hFld{ID: 2, Name: "pl", Req: 2, T: &hTy{K: thrift.I32}})
+	return root
 }
